@@ -3,7 +3,7 @@
    ANY grammar), restated here so that every run re-checks and counts them; the
    instantiation on the grammar regenerated from lcapy/grammar.py is C06_grammar.v. *)
 From Coq Require Import List Ascii Bool Arith ZArith Lia.
-From LT Require Import ParserStr ParserModel ParserThm ParserRoundTrip ParserValue ParserOpts ParserNamespace.
+From LT Require Import ParserStr ParserModel ParserThm ParserRoundTrip ParserValue ParserOpts ParserNamespace ParserNamer.
 Import ListNotations.
 
 (* tokenizer: splitting the joined fields gives the fields back *)
@@ -63,6 +63,44 @@ Proof. exact print_idempotent. Qed.
    prefixing the namespace to the component name and to every node *)
 Theorem C06_parse_namespace : forall g st ns s, parse g st ns s = prefix_res ns (parse g st [] s).
 Proof. exact parse_namespace. Qed.
+(* the component namer over histories of Circuit.add / Circuit.remove (anonymous W/O/A/P, X? names, directives) *)
+Theorem C06_namer_fresh : forall prefix taken, ~ In (namer_loop (length taken) 1 prefix taken) taken.
+Proof. exact namer_fresh. Qed.
+Theorem C06_namer_least : forall prefix taken, exists m, 1 <= m /\
+  namer_loop (length taken) 1 prefix taken = prefix ++ nat_str m
+  /\ (forall i, 1 <= i < m -> In (prefix ++ nat_str i) taken) /\ ~ In (prefix ++ nat_str m) taken.
+Proof. exact namer_least. Qed.
+Theorem C06_nat_str_injective : forall n m, nat_str n = nat_str m -> n = m.
+Proof. exact nat_str_inj. Qed.
+Theorem C06_make_anon_spec : forall st ty, exists m, 1 <= m /\
+  fst (make_anon st ty) = (ty ++ S_anon) ++ nat_str m
+  /\ (forall i, 1 <= i < m -> In ((ty ++ S_anon) ++ nat_str i) (taken_of st))
+  /\ ~ In (fst (make_anon st ty)) (map fst (elements st))
+  /\ ~ In (fst (make_anon st ty)) (gen_names st)
+  /\ elements (snd (make_anon st ty)) = elements st
+  /\ gen_names (snd (make_anon st ty)) = gen_names st ++ [fst (make_anon st ty)].
+Proof. exact make_anon_spec. Qed.
+(* along every history, from any state: element names pairwise distinct, no generated name handed out twice *)
+Theorem C06_hist_invariant : forall g ops st st', names_inv st -> run_hist g st ops = inl st' -> names_inv st'.
+Proof. exact hist_invariant. Qed.
+(* the namer never forgets a name it handed out (removing the component does not free the name) *)
+Theorem C06_hist_memory : forall g ops st st', run_hist g st ops = inl st' -> exists more, gen_names st' = gen_names st ++ more.
+Proof. exact hist_memory. Qed.
+(* a generated name without namespace never replaces a component: the new one is appended *)
+Theorem C06_add_anon_appends : forall g st s c st1 ty,
+  parse g st [] s = Ok (c, st1) -> st1 = snd (make_anon st ty) -> c_name c = fst (make_anon st ty) ->
+  assoc_set (c_name c) c (elements st1) = elements st ++ [(c_name c, c)].
+Proof. exact add_anon_appends. Qed.
+(* Circuit.add(line) itself: if the namer ran, the new component has a dot in its name or was appended under a new name *)
+Theorem C06_add_line_appends : forall g st l st', add_line g st l = Ok st' ->
+  exists c, In (c_name c, c) (elements st')
+    /\ (gen_names st' = gen_names st \/ In DOT (c_name c)
+        \/ (elements st' = elements st ++ [(c_name c, c)] /\ ~ In (c_name c) (map fst (elements st)) /\ ~ In (c_name c) (gen_names st))).
+Proof. exact add_line_appends. Qed.
+Theorem C06_remove_spec : forall st n st', remove_elt st n = Some st' ->
+  In n (map fst (elements st)) /\ ~ In n (map fst (elements st')) /\ gen_names st' = gen_names st
+  /\ forall k v, k <> n -> (In (k, v) (elements st') <-> In (k, v) (elements st)).
+Proof. exact remove_spec. Qed.
 (* rejection *)
 Theorem C06_reject_unbalanced : forall g st s,
   mem LBR (g_delims g) = false -> mem RBR (g_delims g) = false -> mem QUO (g_delims g) = false ->
@@ -146,3 +184,11 @@ Print Assumptions C06_reject_missing_node.
 Print Assumptions C06_reject_unknown_param.
 Print Assumptions C06_reject_duplicate_param.
 Print Assumptions C06_suffix_value.
+Print Assumptions C06_namer_fresh.
+Print Assumptions C06_namer_least.
+Print Assumptions C06_make_anon_spec.
+Print Assumptions C06_hist_invariant.
+Print Assumptions C06_hist_memory.
+Print Assumptions C06_add_anon_appends.
+Print Assumptions C06_add_line_appends.
+Print Assumptions C06_remove_spec.
